@@ -82,6 +82,7 @@ type workerResult struct {
 	KnownHits  []Violation      `json:"known_hits"`
 	Samples    []*Plan          `json:"samples"`
 	HarnessErr string           `json:"harness_err"`
+	NextIdx    int              `json:"next_idx"` // >0: the process recycled itself; resume from this run index
 	TimedOut   bool             `json:"timed_out"`
 	Hashes     []string         `json:"hashes,omitempty"`
 }
@@ -164,6 +165,10 @@ func runWorker(e Engine, props map[string]bool, tier string, seed uint64, from, 
 		if len(res.Failures) >= 3 {
 			break
 		}
+		if ShouldRecycle != nil && ShouldRecycle() && i+stride < count {
+			res.NextIdx = i + stride
+			break
+		}
 	}
 	return res
 }
@@ -199,6 +204,21 @@ type evidence struct {
 	Violations  int                    `json:"violations"`
 }
 
+// ShouldRecycle, when set, is asked after every run whether the worker process
+// should stop and let the parent start a fresh process for the remaining runs
+// (bounds memory held by dropped application objects).
+var ShouldRecycle func() bool
+
+// AtExit, when set, runs before the process exits (scratch clean-up).
+var AtExit func()
+
+func exit(code int) {
+	if AtExit != nil {
+		AtExit()
+	}
+	os.Exit(code)
+}
+
 // Main is the command line shared by the simulator binaries.
 func Main() {
 	if len(os.Args) < 2 {
@@ -207,15 +227,15 @@ func Main() {
 	}
 	switch os.Args[1] {
 	case "check":
-		os.Exit(cmdCheck(os.Args[2:]))
+		exit(cmdCheck(os.Args[2:]))
 	case "worker":
-		os.Exit(cmdWorker(os.Args[2:]))
+		exit(cmdWorker(os.Args[2:]))
 	case "replay":
-		os.Exit(cmdReplay(os.Args[2:]))
+		exit(cmdReplay(os.Args[2:]))
 	case "shrink":
-		os.Exit(cmdShrink(os.Args[2:]))
+		exit(cmdShrink(os.Args[2:]))
 	case "selftest":
-		os.Exit(cmdSelftest(os.Args[2:]))
+		exit(cmdSelftest(os.Args[2:]))
 	case "engines":
 		for _, n := range EngineNames() {
 			fmt.Println(n, strings.Join(registry[n].Props(), ","))
@@ -316,53 +336,77 @@ func cmdCheck(args []string) int {
 		if w < 1 {
 			w = 1
 		}
-		cmds := make([]*exec.Cmd, w)
-		outs := make([]string, w)
-		for i := 0; i < w; i++ {
-			outs[i] = filepath.Join(tmp, fmt.Sprintf("%s-%d.json", e.Name(), i))
-			c := exec.Command(selfExe(), "worker", "-engine", e.Name(), "-props", *prop, "-tier", *tier,
-				"-seed", strconv.FormatUint(seed, 10), "-from", strconv.Itoa(i), "-stride", strconv.Itoa(w),
-				"-count", strconv.Itoa(runs), "-secs", strconv.Itoa(secs), "-out", outs[i])
-			c.Stderr = os.Stderr
-			c.Env = append(os.Environ(), "GOMAXPROCS=2")
-			if err := c.Start(); err != nil {
-				fmt.Fprintln(os.Stderr, "HARNESS-ERROR:", err)
-				return ExitHarness
-			}
-			cmds[i] = c
+		type slotOut struct {
+			results []workerResult
+			err     string
 		}
-		for i, c := range cmds {
-			werr := c.Wait()
-			b, rerr := os.ReadFile(outs[i])
-			if werr != nil || rerr != nil {
-				fmt.Fprintf(os.Stderr, "HARNESS-ERROR: worker %d of %s: %v %v\n", i, e.Name(), werr, rerr)
+		outsCh := make([]slotOut, w)
+		done := make(chan int, w)
+		deadline := time.Now().Add(time.Duration(secs) * time.Second)
+		for i := 0; i < w; i++ {
+			go func(slot int) {
+				defer func() { done <- slot }()
+				from := slot
+				for gen := 0; ; gen++ {
+					left := int(time.Until(deadline).Seconds())
+					if left < 1 {
+						left = 1
+					}
+					out := filepath.Join(tmp, fmt.Sprintf("%s-%d-%d.json", e.Name(), slot, gen))
+					c := exec.Command(selfExe(), "worker", "-engine", e.Name(), "-props", *prop, "-tier", *tier,
+						"-seed", strconv.FormatUint(seed, 10), "-from", strconv.Itoa(from), "-stride", strconv.Itoa(w),
+						"-count", strconv.Itoa(runs), "-secs", strconv.Itoa(left), "-out", out)
+					c.Stderr = os.Stderr
+					c.Env = append(os.Environ(), "GOMAXPROCS=2", "VERIF_SCRATCH="+tmp)
+					werr := c.Run()
+					b, rerr := os.ReadFile(out)
+					if werr != nil || rerr != nil {
+						outsCh[slot].err = fmt.Sprintf("worker %d of %s: %v %v", slot, e.Name(), werr, rerr)
+						return
+					}
+					var r workerResult
+					if err := json.Unmarshal(b, &r); err != nil {
+						outsCh[slot].err = "bad worker output: " + err.Error()
+						return
+					}
+					outsCh[slot].results = append(outsCh[slot].results, r)
+					if r.HarnessErr != "" || r.NextIdx <= 0 || len(r.Failures) > 0 {
+						return
+					}
+					from = r.NextIdx
+				}
+			}(i)
+		}
+		for i := 0; i < w; i++ {
+			<-done
+		}
+		for i := 0; i < w; i++ {
+			if outsCh[i].err != "" {
+				fmt.Fprintln(os.Stderr, "HARNESS-ERROR:", outsCh[i].err)
 				return ExitHarness
 			}
-			var r workerResult
-			if err := json.Unmarshal(b, &r); err != nil {
-				fmt.Fprintln(os.Stderr, "HARNESS-ERROR: bad worker output:", err)
-				return ExitHarness
-			}
-			if r.HarnessErr != "" {
-				fmt.Fprintln(os.Stderr, "HARNESS-ERROR:", r.HarnessErr)
-				return ExitHarness
-			}
-			total.Runs += r.Runs
-			total.Nontrivial += r.Nontrivial
-			total.SimNanos += r.SimNanos
-			total.Blocks += r.Blocks
-			total.Steps += r.Steps
-			mergeCounters(total.Counters, r.Counters)
-			for _, fp := range r.FPs {
-				fpset[fp] = true
-			}
-			allFailures = append(allFailures, r.Failures...)
-			total.KnownHits = append(total.KnownHits, r.KnownHits...)
-			if len(total.Samples) < 2 {
-				total.Samples = append(total.Samples, r.Samples...)
-			}
-			if r.TimedOut {
-				timedOut = true
+			for _, r := range outsCh[i].results {
+				if r.HarnessErr != "" {
+					fmt.Fprintln(os.Stderr, "HARNESS-ERROR:", r.HarnessErr)
+					return ExitHarness
+				}
+				total.Runs += r.Runs
+				total.Nontrivial += r.Nontrivial
+				total.SimNanos += r.SimNanos
+				total.Blocks += r.Blocks
+				total.Steps += r.Steps
+				mergeCounters(total.Counters, r.Counters)
+				for _, fp := range r.FPs {
+					fpset[fp] = true
+				}
+				allFailures = append(allFailures, r.Failures...)
+				total.KnownHits = append(total.KnownHits, r.KnownHits...)
+				if len(total.Samples) < 2 {
+					total.Samples = append(total.Samples, r.Samples...)
+				}
+				if r.TimedOut {
+					timedOut = true
+				}
 			}
 		}
 	}
@@ -403,7 +447,7 @@ func cmdCheck(args []string) int {
 		final := filepath.Join(Root(), "replays", fmt.Sprintf("%s-%d.json", *prop, f.Plan.Seed))
 		// confirm
 		c := exec.Command(selfExe(), "replay", "-quiet", raw)
-		c.Env = append(os.Environ(), "GOMAXPROCS=2")
+		c.Env = append(os.Environ(), "GOMAXPROCS=2", "VERIF_SCRATCH="+tmp)
 		if err := c.Run(); err == nil {
 			fmt.Fprintf(os.Stderr, "HARNESS-ERROR: violation %s of run seed %d did not reproduce in a fresh process (harness nondeterminism); plan kept at %s\n", f.V.Key(), f.Plan.Seed, final+".unreproduced")
 			f.Plan.Save(final + ".unreproduced")
@@ -415,7 +459,7 @@ func cmdCheck(args []string) int {
 		// shrink (time-capped, separate process)
 		sc := exec.Command(selfExe(), "shrink", "-in", raw, "-out", final, "-secs", "90")
 		sc.Stderr = os.Stderr
-		sc.Env = append(os.Environ(), "GOMAXPROCS=2")
+		sc.Env = append(os.Environ(), "GOMAXPROCS=2", "VERIF_SCRATCH="+tmp)
 		if err := sc.Run(); err != nil {
 			f.Plan.Save(final)
 		}
